@@ -12,18 +12,17 @@ class GeneratorInit:
     modifies = ["str_types_registry", "dict_keys_regex", "dict_keys_fields"]
     modifies_self = ["str_types_registry", "dict_keys_regex", "dict_keys_fields"]
 
-    def requires(self, str_types_registry, dict_keys_regex, dict_keys_fields):
-        return {"options_are_lists_or_none": (is_none(dict_keys_regex) or ty_is(dict_keys_regex, list)) and (is_none(dict_keys_fields) or ty_is(dict_keys_fields, list))}
-
     def raises(self, str_types_registry, dict_keys_regex, dict_keys_fields):
         return {"*": True}
 
     def ensures(self, str_types_registry, dict_keys_regex, dict_keys_fields):
+        # the two options are sequences of names / patterns or None (what the CLI and the documented API pass)
+        lists = (is_none(dict_keys_regex) or ty_is(dict_keys_regex, list)) and (is_none(dict_keys_fields) or ty_is(dict_keys_fields, list))
         return {
             "registry_as_given": attr_of(self, "str_types_registry") is (registry if is_none(str_types_registry) else str_types_registry),
-            "exactly_the_given_field_names": forall(attr_set(self, "dict_keys_fields"), lambda x: not is_none(dict_keys_fields) and x in as_list(dict_keys_fields))
-                                             and implies(not is_none(dict_keys_fields), forall(as_list(dict_keys_fields), lambda x: x in attr_set(self, "dict_keys_fields"))),
-            "one_pattern_per_regex": seq_len(attr_of(self, "dict_keys_regex")) == (0 if is_none(dict_keys_regex) else seq_len(as_list(dict_keys_regex))),
+            "exactly_the_given_field_names": implies(lists, forall(attr_set(self, "dict_keys_fields"), lambda x: not is_none(dict_keys_fields) and x in as_list(dict_keys_fields))
+                                                     and implies(not is_none(dict_keys_fields), forall(as_list(dict_keys_fields), lambda x: x in attr_set(self, "dict_keys_fields")))),
+            "one_pattern_per_regex": implies(lists, seq_len(attr_of(self, "dict_keys_regex")) == (0 if is_none(dict_keys_regex) else seq_len(as_list(dict_keys_regex)))),
         }
 
 
